@@ -88,7 +88,7 @@ func versionGuard(fa *FuncAn, b *ssa.BasicBlock, verPat string) string {
 				case c.Kind == "eq" && fullMatch(verPat, c.R):
 					other = c.L
 				default:
-					if c.Kind == "gt" && (strings.Contains(c.L, "(len(") || strings.Contains(c.R, "(len(")) && strings.Contains(c.L+c.R, " - ") && !strings.Contains(c.L+c.R, "$") {
+					if c.Kind == "gt" && (strings.Contains(c.L, "(len(") || strings.Contains(c.R, "(len(")) && strings.Contains(c.L+c.R, " - ") && !strings.Contains(c.L+c.R, "$") && !rejectsOnly(fa, d.Succs[1-k], s) {
 						// a remaining-length test (optional trailing field)
 						parts = append(parts, "remaining"+normaliseLenTest(c, holds))
 					}
@@ -392,4 +392,43 @@ func readerOps(pkg string) map[string]string {
 func writerOps(pkg string) map[string]string {
 	p := q(pkg) + `\.`
 	return map[string]string{p + `marshalString`: "WSTR", p + `\(principal\)\.marshal`: "WPRINC", p + `\(entry\)\.marshal`: "WENTRY"}
+}
+
+// rejectsOnly: every path from block from (not entering block avoid) ends in a return whose last
+// result is a constructed error — the branch is a rejection of malformed input, not an optional field.
+func rejectsOnly(fa *FuncAn, from, avoid *ssa.BasicBlock) bool {
+	seen := map[*ssa.BasicBlock]bool{from: true}
+	stack := []*ssa.BasicBlock{from}
+	rets := 0
+	for len(stack) > 0 {
+		b := stack[len(stack)-1]
+		stack = stack[:len(stack)-1]
+		if b == avoid {
+			return false
+		}
+		if ret, ok := lastInstr(b).(*ssa.Return); ok {
+			rs := RetResults(ret)
+			if len(rs) == 0 {
+				return false
+			}
+			last := rs[len(rs)-1]
+			if c, isConst := last.(*ssa.Const); isConst && c.Value == nil {
+				return false
+			}
+			if !errCtorRe.MatchString(fa.R.R(last)) {
+				if _, isMI := last.(*ssa.MakeInterface); !isMI {
+					return false
+				}
+			}
+			rets++
+			continue
+		}
+		for _, n := range b.Succs {
+			if !seen[n] {
+				seen[n] = true
+				stack = append(stack, n)
+			}
+		}
+	}
+	return rets > 0
 }
